@@ -84,6 +84,14 @@ pub(crate) use witness;
 pub static mut NOW: (i64, u32) = (1_000, 0);
 pub fn set_now(s: i64, n: u32) { unsafe { NOW = (s, n); } }
 pub fn stub_now() -> Instant { unsafe { mk_instant(NOW.0, NOW.1) } }
+/// (seconds, nanoseconds) since the Unix epoch as seen by `SystemTime::now()` (CLOCK_REALTIME).
+pub static mut WALL: (i64, u32) = (1_790_000_000, 0);
+pub fn set_wall(s: i64, n: u32) { unsafe { WALL = (s, n); } }
+pub fn stub_wall_now() -> std::time::SystemTime {
+    #[repr(C)]
+    struct Ts { s: i64, n: u32 }
+    unsafe { std::mem::transmute::<Ts, std::time::SystemTime>(Ts { s: WALL.0, n: WALL.1 }) }
+}
 /// Fabricates an `Instant`; layout {tv_sec: i64, tv_nsec: u32} checked natively by setup.
 pub fn mk_instant(s: i64, n: u32) -> Instant {
     #[repr(C)]
@@ -99,13 +107,17 @@ pub fn instant_parts(i: Instant) -> (i64, u32) {
 
 /// Native builds: interpose libc's clock_gettime for the whole process so that std's
 /// `Instant::now()` (CLOCK_MONOTONIC) returns `NOW`.  Other clocks go to the kernel.
-#[cfg(all(not(kani), verif_interpose_clock))]
+#[cfg(all(not(kani), not(verif_no_interpose)))]
 #[no_mangle]
 pub unsafe extern "C" fn clock_gettime(clk: i32, ts: *mut [i64; 2]) -> i32 {
     extern "C" { fn syscall(n: i64, ...) -> i64; }
     if clk == 1 {
         (*ts)[0] = NOW.0;
         (*ts)[1] = NOW.1 as i64;
+        0
+    } else if clk == 0 {
+        (*ts)[0] = WALL.0;
+        (*ts)[1] = WALL.1 as i64;
         0
     } else {
         syscall(228, clk as i64, ts) as i32
@@ -133,6 +145,7 @@ macro_rules! harnesses {
             #[cfg_attr(kani, kani::unwind($u))]
             #[cfg_attr(kani, kani::stub(std::rt::thread_cleanup, crate::nd::noop))]
             #[cfg_attr(kani, kani::stub(std::time::Instant::now, crate::nd::stub_now))]
+            #[cfg_attr(kani, kani::stub(std::time::SystemTime::now, crate::nd::stub_wall_now))]
             #[cfg_attr(kani, kani::stub(alloc::fmt::format, crate::nd::stub_format))]
             pub fn $name() $body
         )*
